@@ -25,6 +25,7 @@ guaranteed to remain stable and as such not part of the public API of
 stdnum.
 """
 
+import importlib
 import pkgutil
 import pydoc
 import re
@@ -227,7 +228,10 @@ def get_cc_module(cc, name):
         cc += '_'
     try:
         mod = __import__('stdnum.%s' % cc, globals(), locals(), [name])
-        return getattr(mod, name, None)
+        # the attribute on the package is only set after the import of a
+        # submodule completes so ask for the submodule itself if another
+        # thread is still busy doing that
+        return getattr(mod, name, None) or importlib.import_module('stdnum.%s.%s' % (cc, name))
     except ImportError:
         return
 
